@@ -39,7 +39,8 @@ def run(ctx):
     from dds.structures import ProcessingStage
     nworlds = 80 if thorough else 16
     for wi in range(nworlds):
-        w = progs.gen_world(rng, nfun=rng.randint(2, 6))
+        # (every second pipeline reads back, with dds.load, paths it has just kept)
+        w = progs.gen_world(rng, nfun=rng.randint(2, 6), allow=("call", "ref", "keep", "datafn", "shadow") + (("load",) if wi % 2 else ()))
         store_kind = ["memory", "local", "local_lru"][wi % 3]
         with pipeline.Session(store_kind, tag="c15") as s:
             s.set_world(w)
@@ -84,21 +85,31 @@ def run(ctx):
                 recs.append((r, rr, names))
             # a dry run, then an edit (in place - the function objects stay the same - or with a reload), then the full run:
             # the full run is of the edited code
-            for ek in ("inplace_var", "var", "body", "inplace_var"):
+            for ei, ek in enumerate(("inplace_var", "var", "body", "inplace_var", "body", "var")):
                 e = progs.apply_edit(rng, s.world, ek)
                 if e is None:
                     continue
-                k = rng.choice([1, 2, 2, 4])
-                r0, _ = s.run(entry, {"stages": ORDER[:k]})
+                k = rng.choice([1, 2, 2, 4]) if ei % 2 == 0 else rng.choice([3, 4, 3, 2])
                 w2, desc = e
+                if ei % 2 == 0:
+                    # restricted run of the old code, then the edit
+                    r0, rr0 = s.run(entry, {"stages": ORDER[:k]})
                 if desc.get("inplace"):
                     s.mutate_in_place(w2, desc["inplace"])
                 else:
                     s.set_world(w2, desc.get("order"))
+                if ei % 2 == 1:
+                    # the edit, then a restricted run of the new code (on a store that holds the results of the old one)
+                    r0, rr0 = s.run(entry, {"stages": ORDER[:k]})
                 r, rr = s.run(entry)
                 res.evaluations += 2
                 res.count("dry_run_then_edit_" + ek)
                 res.nontrivial("%d dry-edit %s %d" % (wi, ek, k))
+                if k >= 3 and r0["error"] is None and rr0["error"] is None and pipeline.norm_ext(r0["value"]) != pipeline.norm_ext(rr0["value"]):
+                    res.violations.append({"what": "evaluation restricted to stages %s (%s the edit %s) returned %r, plain execution gives %r" % (
+                        ORDER[:k], "before" if ei % 2 == 0 else "after", desc, r0["value"], rr0["value"]),
+                        "input": {"stages": ORDER[:k], "edit": desc, "store": store_kind, "source": progs.render_world(s.world, "extmod")}, "kf": None})
+                    break
                 if r0["error"] is None and rr["error"] is None and (
                         r["error"] is not None or pipeline.norm_ext(r["value"]) != pipeline.norm_ext(rr["value"])):
                     res.violations.append({"what": "full evaluation after (restricted run with stages %s, then edit %s) returned %r (error %s), plain execution of the edited code gives %r" % (
